@@ -127,6 +127,64 @@ def correspondences(tier, rng):
         if c[-1][0] == "closePath" and c[0][0] == "moveTo" and len(c) > 2 and r[0] != c[0]: return "closed contour's first point moved"
         return None
     out.append(Corr("reversedContour", cases, impl_rev, enc=lambda x: (enc_calls(x[0]), x[1]), oracle=oracle_rev))
+    # the two protocol adapters: SegmentToPointPen on call sequences (mostly well formed, some not), PointToSegmentPen on point lists
+    from fontTools.pens.pointPen import SegmentToPointPen, PointToSegmentPen
+    from fontTools.pens.recordingPen import RecordingPen, RecordingPointPen
+    from fontTools.pens.basePen import PenError
+    from lib import ser as S_
+    TYPES = {"move": 0, "line": 1, "curve": 2, "qcurve": 3}
+    def pen_res(fn):
+        try: return Ok(fn())
+        except PenError: return Err(S_.LIB)
+        except Exception as e: return Err(S_.exc_code(e))
+    def enc_points(pts): return [(Opt(p, some=p is not None), Opt(TYPES[t] if t is not None else None, some=t is not None)) for p, t in pts]
+    cases = []
+    for _ in range(n):
+        calls = []
+        for _c in range(rng.randint(1, 3)): calls += gen_contour(rng)
+        r_ = rng.below(12)
+        if r_ == 0 and len(calls) > 1: del calls[rng.below(len(calls))]                      # a call goes missing (often the moveTo or the closePath)
+        elif r_ == 1: calls.insert(rng.below(len(calls) + 1), rng.choice([("curveTo", ()), ("qCurveTo", ()), ("closePath", ()), ("endPath", ()), ("qCurveTo", (None,)), ("lineTo", (P(rng),))]))
+        elif r_ == 2: calls.insert(rng.below(len(calls) + 1), ("qCurveTo", (P(rng), P(rng), None)))
+        cases.append(calls)
+    def impl_s2p(calls):
+        def go():
+            rec = RecordingPointPen(); pen = SegmentToPointPen(rec, guessSmooth=False)
+            for op, a in calls: getattr(pen, op)(*a)
+            outc = []; cur = None
+            for op, a, kw in rec.value:
+                if op == "beginPath": cur = []
+                elif op == "addPoint": cur.append((a[0], a[1]))
+                elif op == "endPath": outc.append(enc_points(cur)); cur = None
+            return outc
+        return pen_res(go)
+    out.append(Corr("segment_to_point", cases, impl_s2p, enc=enc_calls))
+    cases = []
+    for _ in range(n):
+        k = rng.randint(0, 9); fam = rng.below(6)
+        if fam < 3:
+            # what SegmentToPointPen produces for a generated contour
+            rec = RecordingPointPen(); pen = SegmentToPointPen(rec, guessSmooth=False)
+            try:
+                for op, a in gen_contour(rng): getattr(pen, op)(*a)
+            except Exception: pass
+            pts = [(a[0], a[1]) for op, a, kw in rec.value if op == "addPoint"]
+            if fam == 1 and pts and pts[0][1] != "move":
+                r_ = rng.below(len(pts)); pts = pts[r_:] + pts[:r_]                         # a closed contour may start at any point
+        else:
+            pts = [(P(rng), rng.choice([None, None, "line", "curve", "qcurve"] + (["move"] if rng.chance(10) else []))) for _ in range(k)]
+            if pts and rng.chance(40): pts[0] = (pts[0][0], "move")
+        cases.append((pts, rng.chance(30)))
+    def impl_p2s(x):
+        pts, implied = x
+        def go():
+            rec = RecordingPen(); pen = PointToSegmentPen(rec, outputImpliedClosingLine=implied)
+            pen.beginPath()
+            for p_, t_ in pts: pen.addPoint(p_, t_)
+            pen.endPath()
+            return enc_calls(rec.value)
+        return pen_res(go)
+    out.append(Corr("point_to_segment", cases, impl_p2s, enc=lambda x: (enc_points(x[0]), x[1])))
     return out
 
 class _Priv:
